@@ -33,7 +33,9 @@ HelloBody(h) ==
   U16(h.legacy) \o Random32 \o <<Len(h.sid)>> \o h.sid \o U16(2 * Len(h.ciphers)) \o V16(h.ciphers)
   \o <<Len(h.comps)>> \o h.comps \o (IF h.noext THEN <<>> ELSE U16(Len(exts)) \o exts)
 Handshake(h) == LET b == HelloBody(h) IN <<1, 0>> \o U16(Len(b)) \o b        \* type 1, 24-bit length (< 65536 here)
-Wire(h) == LET hs == Handshake(h) IN <<22, 3, 1>> \o U16(Len(hs)) \o hs
+\* the record layer version (3.0 .. 3.4 all occur in practice; 3.1 is the usual one) is not part of the fingerprint
+WireV(h, minor) == LET hs == Handshake(h) IN <<22, 3, minor>> \o U16(Len(hs)) \o hs
+Wire(h) == IF "recminor" \in DOMAIN h THEN WireV(h, h.recminor) ELSE WireV(h, 1)
 
 \* ---- JA4
 Chr(b) == IF b >= 48 /\ b <= 57 THEN SubSeq("0123456789", b - 47, b - 47)
